@@ -28,6 +28,7 @@ func init() {
 }
 
 type c10Req struct {
+	sentAt   time.Time // fake clock, when Send returned
 	tag      string
 	req      client.InFlightRequest
 	sendErr  error
@@ -73,7 +74,7 @@ func c10Route(r *Run, rawPeer bool) {
 	// timeout mode: a short read timeout, caller-chosen stream ids that every sender uses again for its
 	// next request, and a peer that sometimes answers after the timeout: the request then legitimately
 	// fails, but its late answer must never reach the request that uses the same id next
-	timeoutMode := !overflowMode && T.Bool("timeouts", 0.2)
+	timeoutMode := !overflowMode && T.Bool("timeouts", 0.3)
 	readTimeout := time.Hour
 	explicitIds := make([]int16, K)
 	if timeoutMode {
@@ -81,8 +82,15 @@ func c10Route(r *Run, rawPeer bool) {
 		if opts.Capacity < 4096 {
 			opts.Capacity = 4096
 		}
-		if opts.Latency > ms(1) {
-			opts.Latency = ms(1)
+		if opts.Latency > ms(1) || T.Bool("timeout.nolatency", 0.6) {
+			opts.Latency = 0 // an answer can then overtake whatever the sending side does after its write
+		}
+		if !v.IsDse() && T.Bool("timeout.dse", 0.5) {
+			// multi-page responses exist in the DSE versions only
+			v = []primitive.ProtocolVersion{primitive.ProtocolVersionDse1, primitive.ProtocolVersionDse2}[T.Draw("timeout.dsev", 2)]
+			if !v.SupportsCompression(comp) {
+				comp = primitive.CompressionNone
+			}
 		}
 		for i := range explicitIds {
 			explicitIds[i] = int16(10 + i)
@@ -115,6 +123,13 @@ func c10Route(r *Run, rawPeer bool) {
 			tag := fmt.Sprintf("q%d.%d", i, j)
 			paceMs[tag] = T.DrawP("pacems", 40, 0.5)
 			cpMaxPages[tag] = []int{0, 0, 16, 1}[T.Draw("cp.maxpages", 3)] // 0 means "no limit"
+			if timeoutMode && v.IsDse() && T.Bool("timeout.slowpages", 0.6) {
+				// a response that takes longer than the read timeout as a whole while no single gap does:
+				// the request must NOT time out (the consumer is prompt, so MaxPending is never exceeded)
+				p.pages = 4 + T.Draw("pages.slow", 4)
+				p.gapMs = int(readTimeout/time.Millisecond) / 2
+				paceMs[tag] = 0
+			}
 			if overflowMode && T.Bool("overflow.this", 0.5) {
 				// the stream of pages outlasts the moment the request fails: late pages keep arriving while
 				// other requests are being sent (and ids are being recycled)
@@ -132,6 +147,7 @@ func c10Route(r *Run, rawPeer bool) {
 	// observations
 	var reqs []*c10Req
 	sentPages := map[string][]string{} // tag -> pages the peer sent successfully, in order
+	pageAt := map[string][]time.Time{}  // tag -> fake-clock instants at which the peer handed each page to Send
 	var sentEvents []string
 	handlerSeen := [2][]string{}
 	var chanEvents []string
@@ -279,8 +295,10 @@ func c10Route(r *Run, rawPeer bool) {
 						r.Sleep(ms(p.gapMs))
 					}
 					pf := pageFrame(v, f.Header.StreamId, tag, pg, p.pages)
+					at := time.Now()
 					if send(pf) {
 						sentPages[tag] = append(sentPages[tag], pageTag(pf))
+						pageAt[tag] = append(pageAt[tag], at)
 					}
 				}
 				if p.pages > 1 {
@@ -317,6 +335,7 @@ func c10Route(r *Run, rawPeer bool) {
 						r.Probes["send_refused"]++
 						continue
 					}
+					rec.sentAt = time.Now()
 					r.Event("%s sent id=%d", rec.tag, rec.req.StreamId())
 					for {
 						if d := paceMs[rec.tag]; d > 0 {
@@ -394,8 +413,12 @@ func c10Route(r *Run, rawPeer bool) {
 	if !handshakeOK {
 		return
 	}
+	planPages := map[string]int{}
+	for tag, p := range plans {
+		planPages[tag] = p.pages
+	}
 	accepted := c10Judge(r, &c10Obs{reqs: reqs, sentPages: sentPages, sentEvents: sentEvents, handlerSeen: handlerSeen, chanEvents: chanEvents,
-		overflowMode: overflowMode, timeoutMode: timeoutMode, maxPending: maxPending, N: N, nEvents: nEvents})
+		overflowMode: overflowMode, timeoutMode: timeoutMode, maxPending: maxPending, N: N, nEvents: nEvents, pageAt: pageAt, readTimeout: readTimeout, planPages: planPages})
 	r.Nontrivial = accepted >= 2 && r.repoSwitches > 0
 	if r.Spec.Trace {
 		var lines []string
@@ -422,6 +445,9 @@ type c10Obs struct {
 	chanEvents   []string
 	overflowMode bool
 	timeoutMode  bool
+	pageAt       map[string][]time.Time
+	planPages    map[string]int
+	readTimeout  time.Duration
 	maxPending   int
 	N            int
 	nEvents      int
@@ -454,6 +480,20 @@ func c10Judge(r *Run, o *c10Obs) int {
 		timedOut := o.timeoutMode && (rec.recvErr != nil || rec.errAtEnd != nil)
 		if timedOut {
 			r.Probes["requests_timed_out"]++
+			// a timeout is legitimate only after a silence of (nearly) the read timeout: between the send and
+			// the first page, between two pages, or after the last page the peer sent. Links in this mode
+			// have at most 1 ms latency; 50 ms of slack is allowed.
+			if at := o.pageAt[rec.tag]; len(at) == len(want) && len(want) > 0 && !rec.sentAt.IsZero() && len(want) == o.planPages[rec.tag] {
+				longest := at[0].Sub(rec.sentAt)
+				for i := 1; i < len(at); i++ {
+					if d := at[i].Sub(at[i-1]); d > longest {
+						longest = d
+					}
+				}
+				if longest < o.readTimeout-50*time.Millisecond && len(rec.got) < len(want) {
+					r.Violate(P, "routing", "failed-while-pages-kept-arriving", "request %s failed (%v / %v) after receiving %d of %d pages although the peer never left a gap longer than %v (read timeout %v): the response was lost to a timeout that should have been re-armed by every page", rec.tag, rec.recvErr, rec.errAtEnd, len(rec.got), len(want), longest, o.readTimeout)
+				}
+			}
 		}
 		if overflowed || timedOut {
 			// the request failed because more than MaxPending pages were waiting: what it did receive
